@@ -32,6 +32,7 @@ type C14Scenario struct {
 	TailRows  sqlfake.Result `json:"tail_rows"`
 	Sched     []byte         `json:"sched"`
 	SchedSeed uint64         `json:"sched_seed"`
+	Preempt   int64          `json:"preempt,omitempty"` // see simrt.SetPreempt
 }
 
 func genC14(rt *rapid.T) C14Scenario {
@@ -67,6 +68,7 @@ func genC14(rt *rapid.T) C14Scenario {
 	}
 	s.Sched = rapid.SliceOfN(rapid.Byte(), 0, 16).Draw(rt, "sched")
 	s.SchedSeed = rapid.Uint64().Draw(rt, "schedseed")
+	s.Preempt = rapid.SampledFrom([]int64{0, 0, 5, 40, 400}).Draw(rt, "preempt")
 	return s
 }
 
@@ -137,6 +139,7 @@ func RunC14(t *testing.T, s C14Scenario) (ri *simcheck.RunInfo) {
 func c14body(ri *simcheck.RunInfo, s C14Scenario) {
 	t0 := time.Now()
 	sim := simrt.New(s.Sched, s.SchedSeed)
+	sim.SetPreempt(s.Preempt, s.SchedSeed)
 	defer sim.Close()
 	st := &runState{s: Scenario{Cluster: s.Cluster}}
 	st.db = sqlfake.NewDB(nil)
@@ -326,6 +329,9 @@ func c14body(ri *simcheck.RunInfo, s C14Scenario) {
 	fmt.Fprintf(h, "%s|%x|%d|%d", key, sim.TraceHash(), len(s.History), len(s.Parallel))
 	ri.Hash = h.Sum64()
 	ri.Steps = sim.Steps
+	if sim.Preempts > 0 {
+		ri.Faults["sched-preempt-between-sync-ops"] += int(sim.Preempts)
+	}
 	ri.SimNanos = int64(time.Since(t0))
 	ri.NonTrivial = len(first) > 0 && (len(s.History) > 0 || len(s.Parallel) > 0 || len(tickSQL) > 1)
 	ri.Sample = map[string]any{"subject": s.Subject.Kind + " " + s.Subject.Query, "history": len(s.History), "parallel": len(s.Parallel), "tail_ticks": len(tickSQL), "statements": len(first), "first_statement": firstOr(first)}
